@@ -17,7 +17,7 @@ type progenOpts struct {
 	NoClasses bool
 	Strict    bool // emit only code valid (and meaning the same) in strict mode
 	FnNames   bool // observe function .name (keep-names workloads)
-	ES2015    bool // unused
+	NoBigInt  bool // no bigint literals (their ** cannot be lowered; documented as not transformable)
 }
 
 const (
@@ -159,7 +159,7 @@ func (g *progen) literal() pexpr {
 	case 9:
 		return pexpr{s: "void 0", prec: pPrefix, kind: 4}
 	case 10:
-		if g.rng.Intn(4) != 0 {
+		if g.o.NoBigInt || g.rng.Intn(4) != 0 {
 			return pexpr{s: pgNumbers[g.rng.Intn(4)], prec: pMember}
 		}
 		return pexpr{s: []string{"1n", "0n", "255n", "-3n"}[g.rng.Intn(4)], prec: pPrefix, kind: 4}
@@ -348,13 +348,24 @@ func (g *progen) expr(sc *pscope, depth int) pexpr {
 	case 12: // object literal
 		n := g.rng.Intn(4)
 		var items []string
+		hasSpread, hasGetter := false, false
 		for i := 0; i < n; i++ {
 			k := []string{"a", "b", "c", "\"d e\"", "1", "[" + g.paren(g.expr(sc, 0), pAssign) + "]", "__proto__x", "if", "get", "async"}[g.rng.Intn(10)]
-			switch g.rng.Intn(7) {
+			kind := g.rng.Intn(7)
+			// V8 (Node 20 and 22) orders the keys of a literal that mixes a spread with a later accessor wrongly
+			// (accessor after the following data properties), so the reference engine cannot judge that shape
+			if kind == 0 && hasGetter {
+				kind = 4
+			}
+			if kind == 3 && hasSpread {
+				kind = 4
+			}
+			switch kind {
 			case 0:
 				objs := sc.allObjs()
 				if len(objs) > 0 {
 					items = append(items, "..."+objs[g.rng.Intn(len(objs))])
+					hasSpread = true
 					continue
 				}
 				fallthrough
@@ -368,6 +379,7 @@ func (g *progen) expr(sc *pscope, depth int) pexpr {
 			case 2:
 				items = append(items, k+"() { return "+g.paren(g.expr(g.fnScope(sc, false, false), depth-1), pAssign)+"; }")
 			case 3:
+				hasGetter = true
 				items = append(items, "get "+k+"() { return "+g.paren(g.probeOf(g.expr(g.fnScope(sc, false, false), depth-1)), pAssign)+"; }")
 			default:
 				items = append(items, k+": "+g.paren(g.expr(sc, depth-1), pAssign))
